@@ -162,7 +162,19 @@ fn values_for(id: &Ident, rng: &mut SmallRng, dense: u64) -> Vec<u64> {
     let vb = matches!(fam, "VBYTE_BE" | "VBYTE_LE" | "VByteBe" | "VByteLe");
     // u64::MAX is left to the codes driver: the statistics wrappers, which see every value
     // dispatched here, track codes that cannot represent it
-    let _ = vb;
+    if vb {
+        // every length step of the complete VByte code, +-2
+        let mut thr: u128 = 0;
+        for i in 1..=9u32 {
+            thr += 1u128 << (7 * i);
+            for d in -2i128..=2 {
+                let x = thr as i128 + d;
+                if x >= 0 && x < u64::MAX as i128 {
+                    s.insert(x as u64);
+                }
+            }
+        }
+    }
     let mut v: Vec<u64> = s.into_iter().filter(|x| *x != u64::MAX && unary(*x) <= 200).collect();
     v.sort();
     v
